@@ -155,6 +155,10 @@ class Bus:
     def settle(self):
         pol = batch_policy(self.rng)
         self.note("settle", pol)
+        if (self.S.seed + self.S.stats["quiescent_points"]) % 23 == 0:
+            # the wait for events is interrupted (process stopped and continued): no reason to leave the loop or to lose an event
+            self.S.sim.eintr()
+            self.S.stats["interrupted_waits"] += 1
         return self.S.settle(**pol)
 
     def start(self):
@@ -363,6 +367,10 @@ class Bus:
             ns = max(1, min(dl) - S.now + rng.choice([-1, 0, 0, 1]))
         else:
             ns = rng.choice([1000, 10**6, 10**8, 3 * 10**8])
+        if S.now + ns > (1 << 62):
+            # the simulated clock counts nanoseconds in 64 bits: jumps to deadlines that lie 136 years ahead are taken only while
+            # the uptime stays far away from that limit
+            ns = rng.choice([1000, 10**6])
         # never leave the daemon non-quiescent across a clock step: a deadline is judged at quiescent points
         self.settle()
         self.note("advance", ns)
